@@ -310,6 +310,8 @@ def shrink(h, stream, case_ops, work, is_bad):
         issues, _, _ = eval_case(h, stream, ops, work)
         return any(is_bad(x) for x in issues)
     head, body = case_ops[:1], case_ops[1:]
+    if len(body) <= 1 and not (SHRINK_ARGS.get(stream) or {}):
+        return case_ops    # nothing to remove
     if not fails(head + body):
         return case_ops
     # truncate after the first failing line (a failure that depends on map iteration order, a schedule or pooled
@@ -511,6 +513,8 @@ def check(pid, P, tier, seed, work, replay, t0):
         broken.append(("forbidden construct", hsh))
 
     # 4: harness from the current tree
+    if os.environ.get("VERIF_VERBOSE"):
+        log("phase: proofs re-checked at %.1fs" % (time.time() - t0))
     h, hout = build_harness(work)
     if h is None:
         print(hout)
@@ -646,6 +650,8 @@ def check(pid, P, tier, seed, work, replay, t0):
                     end = starts[ci + 1] if ci + 1 < len(starts) else len(ops_lines)
                     all_issues.append((stream, ops_lines[starts[ci]:end], its))
 
+    if os.environ.get("VERIF_VERBOSE"):
+        log("phase: correspondence run finished at %.1fs (%d cases with issues)" % (time.time() - t0, len(all_issues)))
     # 6: verdict
     # classify issues: divergence (impl != model) is new; spec-bad with impl == model is explained by a recorded
     # finding only if the property has open findings (the model carries them, selected by Gen facts).
@@ -728,7 +734,11 @@ def report_violation(pid, P, tier, seed, t0, work, h, broken, new_issues, stats_
         stream, ops, its = pick
         want_spec = bool(spec_cases)
         new_spec, any_new = mk_preds(stream)
+        if os.environ.get("VERIF_VERBOSE"):
+            log("phase: shrinking a case of %d lines at %.1fs" % (len(ops), time.time() - t0))
         small = shrink(h, stream, ops, work, new_spec if want_spec else any_new)
+        if os.environ.get("VERIF_VERBOSE"):
+            log("phase: shrunk to %d lines at %.1fs" % (len(small), time.time() - t0))
         issues, tr, md = eval_case(h, stream, small, work, "final")
         if not issues:
             small = ops
